@@ -1,5 +1,5 @@
 """C08 - notes written to note data read back identically, in canonical form (structural clauses)."""
-from ..rules import notes, baseline
+from ..rules import notes, baseline, state
 
 EXPLANATION = (
     "Static rule checking of NoteData.from_notes: R-ORDER must-pass-through - on every enumerated path to the return (loops zero / "
@@ -32,6 +32,10 @@ def c5(ctx):
     notes.columns_rule(ctx)
 
 
+def c_state(ctx):
+    state.shared_state(ctx, ['simfile.notes:NoteData.__iter__', 'simfile.notes:NoteData.from_notes', 'simfile.notes:NoteData.__init__', 'simfile.timing:Beat.__new__'], 'the text written for a stream of notes depends on that stream only')
+
+
 def c_api(ctx):
     baseline.surface(ctx, "C08: documented surface", modules=['simfile.notes'])
 
@@ -40,5 +44,6 @@ CLAUSES = [
     ("C08.2", "skipped players / measures / rows are filled; separators agree with the reader", c2),
     ("C08.3-4", "row count and row key; a written cell is the note's own text", c3),
     ("C08.5", "the reader as the inverse: beat formula, one note per cell with the cell's own fields, keysound brackets, reported column count (shared with C07)", c5),
+    ("C08.state", "no process-wide state (module-level caches, memoised constructors) behind the note writer / reader (R-STATE)", c_state),
     ("C08.api", "public surface: signatures and defaults, constants, enumerations, blank templates, base classes as confirmed (R-API)", c_api),
 ]
